@@ -65,6 +65,9 @@ def run(case):
             tr = gcall(traj.transitions_between_sites, st_, 'Li', site_radius=rarg, site_inner_fraction=f)
             compare(tr.states, want, f'pipeline-states (call {rep})', case)
             compare(tr.inner_states, want_in, f'pipeline-inner-states (call {rep})', case)
+            gcall(tr.states_prev)
+            gcall(tr.states_next)
+            compare(tr.states, want, f'pipeline-states after the previous/next views were requested (call {rep})', case)
         labels.append('pipeline')
     if isinstance(case['radius'], dict):
         labs = case['sites']['labels']
